@@ -120,6 +120,8 @@ type pathState struct {
 	curPos    func() string
 	writes    []string
 	trackW    bool
+	gcells    map[*value]bool
+	gmaps     map[*omap]bool
 	sched     *scheduler
 }
 
